@@ -1059,6 +1059,21 @@ func init() {
 		ip.uuidN++
 		return &Str{s: fmt.Sprintf("00000000-0000-4000-8000-%012d", ip.uuidN)}
 	}
+	I["github.com/google/uuid.New"] = func(ip *Interp, fn *ssa.Function, args []Value) Value {
+		ip.uuidN++
+		a := Agg{elems: make([]Value, 16)}
+		for i := range a.elems {
+			a.elems[i] = ip.tb.BVConst(0, 8)
+		}
+		a.elems[14] = ip.tb.BVConst(uint64(ip.uuidN>>8), 8)
+		a.elems[15] = ip.tb.BVConst(uint64(ip.uuidN), 8)
+		return a
+	}
+	I["(github.com/google/uuid.UUID).String"] = func(ip *Interp, fn *ssa.Function, args []Value) Value {
+		a := args[0].(Agg)
+		n := int(a.elems[14].(*Term).bv)<<8 | int(a.elems[15].(*Term).bv)
+		return &Str{s: fmt.Sprintf("00000000-0000-4000-8000-%012d", n)}
+	}
 	I["runtime.Gosched"] = func(ip *Interp, fn *ssa.Function, args []Value) Value {
 		ip.schedPoint("Gosched", fn)
 		return nil
